@@ -98,6 +98,10 @@ func distrAddrOf(a DAcc) string {
 	case tModule:
 		return ModuleAddr(a.Id).String()
 	case tBase:
+		// canonical (lower case) spelling: bech32 also accepts the all upper case one
+		if addr, err := sdk.AccAddressFromBech32(a.Id); err == nil {
+			return addr.String()
+		}
 		return a.Id
 	}
 	return ""
